@@ -9,6 +9,37 @@
 
 pub use real_once_cell::{race, unsync};
 
+/// `std::sync` as seen by the simulation build when the library's own source
+/// names it (the shadow copy of the source rewrites `std::sync::` to this
+/// module, see `gen_shadow_lib` in /verif/check): shuttle's scheduler-aware
+/// primitives where shuttle has them, std's for the rest. With this, code that
+/// synchronises through raw std types (atomics, Mutex, RwLock, Once, Condvar)
+/// gets a scheduling point at every such operation instead of being invisible
+/// to the simulator.
+pub mod stdsync {
+    pub use shuttle::sync::{Barrier, BarrierWaitResult, Condvar, Mutex, MutexGuard, Once, OnceState, RwLock, RwLockReadGuard, RwLockWriteGuard, WaitTimeoutResult};
+    pub use std::sync::*;
+    pub mod atomic {
+        pub use shuttle::sync::atomic::*;
+    }
+    pub mod mpsc {
+        pub use shuttle::sync::mpsc::*;
+    }
+}
+
+/// `std::thread` for the same purpose: spawned threads become shuttle tasks.
+pub mod stdthread {
+    pub use shuttle::thread::{current, panicking, park, sleep, spawn, yield_now, Builder, JoinHandle, Thread, ThreadId};
+    pub use std::thread::*;
+}
+
+/// `thread_local!` with one instance per simulated thread (shuttle task).
+/// (In its own module: at the crate root it would shadow std's macro for this
+/// crate's own thread-locals.)
+pub mod simtls {
+    pub use shuttle::thread_local;
+}
+
 use std::cell::Cell;
 use std::sync::atomic::{AtomicU64, AtomicUsize, Ordering};
 
